@@ -32,5 +32,8 @@ try:
         viol = [l for l in lines if l.startswith("VIOLATION")]
         print(pid, "exit", r.returncode, "|", lines[-1] if lines else r.stderr[-300:], "|", viol[0] if viol else "")
 finally:
+    import glob, hashlib
+    for d in glob.glob("/verif/work/gen_%s*" % hashlib.sha256(os.path.realpath(wt).encode()).hexdigest()[:10]):
+        shutil.rmtree(d, ignore_errors=True)
     subprocess.run(["git", "-C", "/repo", "worktree", "remove", "--force", wt], capture_output=True)
     shutil.rmtree(wt, ignore_errors=True)
